@@ -9,7 +9,7 @@ the matching return sites).  Calls outside the package raise anything unless lis
 """
 import ast
 from collections import deque
-from .model import AnalysisError, dump, FuncInfo, mangle
+from .model import AnalysisError, dump, FuncInfo, mangle, is_logging_call
 from .cfg import cfg_of, node_exprs
 from . import q
 
@@ -1107,7 +1107,7 @@ class _Run(object):
             if r is not None and r.startswith("builtin:"):
                 return self.builtin(r[8:], e, argv, kwv, st, node)
         # logger
-        if isinstance(f, ast.Attribute) and f.attr in LOGGER_METHODS and dump(f.value) in ("_logger", "self._logger", "logging"):
+        if is_logging_call(e):
             self.an.op(self.fi, node, "logging call")
             return NONE
         # package functions / classes
